@@ -141,6 +141,9 @@ type Sim struct {
 	// work-queue bookkeeping for processed()
 	lockedNames map[string]bool
 	lockedSince map[string]int
+	// lockedAt: the idle moments (cut indices) at which a resource's work queue
+	// was held up by a query event waiting for its answers
+	lockedAt    map[string]map[int]bool
 	lastIdleCut int
 
 	stopped     bool
@@ -169,6 +172,7 @@ func newSim(cfg *RunCfg) *Sim {
 		deletedByRefetch: map[*Variant]bool{},
 		unsure:           map[*Variant]bool{},
 		lockedSince:      map[string]int{},
+		lockedAt:         map[string]map[int]bool{},
 	}
 	s.obsHash = 1469598103934665603
 	return s
@@ -539,6 +543,12 @@ func (s *Sim) settle() {
 		}
 		s.lastIdleCut = s.Cut
 		for n := range s.lockedNames {
+			if s.lockedAt[n] == nil {
+				s.lockedAt[n] = map[int]bool{}
+			}
+			s.lockedAt[n][s.Cut] = true
+		}
+		for n := range s.lockedNames {
 			if _, ok := s.lockedSince[n]; !ok {
 				s.lockedSince[n] = s.Cut
 			}
@@ -550,6 +560,17 @@ func (s *Sim) settle() {
 		}
 		s.mu.Unlock()
 	}
+}
+
+// effectiveCut: the first idle moment after dlvCut at which the work queue of
+// resource name was not held up: what reached the gateway at dlvCut has been
+// handled by then. Call with s.mu held or from the scheduler.
+func (s *Sim) effectiveCut(name string, dlvCut int) int {
+	c := dlvCut + 1
+	for s.lockedAt[name][c] {
+		c++
+	}
+	return c
 }
 
 // processed: something delivered to the gateway's work queue of resource name
